@@ -50,6 +50,9 @@ pub struct Gen {
     pub input: u8,
     pub proof: String,
     pub blind_proof: String,
+    /// "signature|proof" of the blind interface used without a commitment and without prover blind
+    #[serde(default)]
+    pub blind_proof_nocommit: String,
     pub commitment: String,
     pub blind_factor: String,
     pub random_bf: String,
@@ -122,11 +125,16 @@ fn generate<CS: BbsCiphersuite>(inp: &Inputs<CS>, which: u8) -> Result<Gen, Stri
         .map_err(|e| format!("blind_sign {:?}", e))?;
     let bproof = PoKSignature::<BBSplus<CS>>::blind_proof_gen(pk, &bsig.to_bytes(), Some(&inp.header), Some(&inp.ph), Some(&inp.msgs), Some(&inp.cm), Some(&inp.disclosed), Some(&[]), Some(&bf))
         .map_err(|e| format!("blind_proof_gen {:?}", e))?;
+    // the blind interface without commitment and without prover blind (the slot of the blind factor holds 0)
+    let bsig0 = BlindSignature::<BBSplus<CS>>::blind_sign(inp.kp.private_key(), pk, None, Some(&inp.header), Some(&inp.msgs)).map_err(|e| format!("blind_sign without commitment {:?}", e))?;
+    let bproof0 = PoKSignature::<BBSplus<CS>>::blind_proof_gen(pk, &bsig0.to_bytes(), Some(&inp.header), Some(&inp.ph), Some(&inp.msgs), None, Some(&inp.disclosed), None, None)
+        .map_err(|e| format!("blind_proof_gen without prover blind {:?}", e))?;
     let rkp = KeyPair::<BBSplus<CS>>::random().map_err(|e| format!("KeyPair::random {:?}", e))?;
     Ok(Gen {
         input: which,
         proof: hex::encode(proof.to_bytes()),
         blind_proof: format!("{}|{}", hex::encode(bsig.to_bytes()), hex::encode(bproof.to_bytes())),
+        blind_proof_nocommit: format!("{}|{}", hex::encode(bsig0.to_bytes()), hex::encode(bproof0.to_bytes())),
         commitment: hex::encode(com.to_bytes()),
         blind_factor: hex::encode(bf.to_bytes()),
         random_bf: hex::encode(BlindFactor::random().to_bytes()),
@@ -229,6 +237,26 @@ fn analyse<CS: BbsCiphersuite>(r: &Ref, inp: &Inputs<CS>, g: &Gen, n: usize, poo
     }
     if bpb.windows(48).any(|w| w == refimpl::g1_bytes(&bsig.a)) {
         return Err(("blind-proof-contains-A".into(), format!("generation {}", n)));
+    }
+    // blind proof without commitment / prover blind: the slot L holds the scalar 0, its response is the bare blinding
+    if let Some((bs0, bp0)) = g.blind_proof_nocommit.split_once('|') {
+        let bsig0 = refimpl::octets_to_sig(&hex::decode(bs0).unwrap()).map_err(|e| ("blind-sig-undecodable".to_string(), format!("{:?}", e)))?;
+        let bpb0 = hex::decode(bp0).unwrap();
+        let bpr0 = refimpl::octets_to_proof(&bpb0).map_err(|e| ("blind-proof-undecodable".to_string(), format!("{:?}", e)))?;
+        let mut wit0: Vec<Scalar> = bms.clone();
+        wit0.push(Scalar::ZERO);
+        let h0: Vec<usize> = (0..wit0.len()).filter(|i| !inp.disclosed.contains(i)).collect();
+        if bpr0.m_hat.len() != h0.len() {
+            return Err(("blind-proof-shape".into(), format!("no commitment: {} responses for {} hidden values", bpr0.m_hat.len(), h0.len())));
+        }
+        pool.scalars.push((format!("#{} blind proof (no commitment) e~", n), bpr0.e_hat - bsig0.e * bpr0.c));
+        for (k, &j) in h0.iter().enumerate() {
+            pool.scalars.push((format!("#{} blind proof (no commitment) m~[{}]", n, j), bpr0.m_hat[k] - wit0[j] * bpr0.c));
+        }
+        pool.scalars.push((format!("#{} blind proof (no commitment) challenge", n), bpr0.c));
+        for (nm, pt) in [("Abar", &bpr0.abar), ("Bbar", &bpr0.bbar), ("D", &bpr0.d)] {
+            pool.points.push((format!("#{} blind proof (no commitment) {}", n, nm), refimpl::g1_bytes(pt).to_vec()));
+        }
     }
     // free-standing random values
     for (nm, h) in [("BlindFactor::random", &g.random_bf), ("KeyPair::random sk", &g.random_sk)] {
